@@ -122,6 +122,13 @@ def run(ctx):
         "cov-cli": ("cov", 1, lambda o: [cli, "cov", "-i", ins[2], "-o", o, "-k", "7", "-s", "5", "-c", "5", "-t", "3"]),
         "cov-cli-alt": ("cov", 1, lambda o: [cli, "cov", "-i", ins[0], "-a", ins[1], "-o", o, "-k", "9", "-s", "5", "-c", "6", "-t", "1", "--counts"]),
     }
+    # runs on an input without records: whatever an earlier run left must not survive as a result
+    empty = ctx.path("empty.fa")
+    open(empty, "w").close()
+    S["oligo-mmap-empty"] = ("single", lambda o: [cli, "comp", "oligo", "-i", empty, "-o", o, "-k", "3", "-t", "2"], None)
+    S["min-s2m-empty"] = ("single", lambda o: [cli, "min", "-i", empty, "-o", o, "-m", "7", "-w", "0", "-p", "s2m", "-t", "2"], sorted_lines)
+    D["cov-cli-empty"] = ("cov", 1, lambda o: [cli, "cov", "-i", empty, "-o", o, "-k", "7", "-s", "5", "-c", "5", "-t", "2"])
+    D["ctr-cli-empty"] = ("ctr", 1, lambda o: [cli, "ctr", "-i", empty, "-o", o, "-k", "10", "-t", "2"])
     rng = random.Random(ctx.seed)
     hs = [list(h) for n in (2, 3) for h in itertools.product(sorted(S), repeat=n)]
     hd = [list(h) for n in (2, 3) for h in itertools.product(sorted(D), repeat=n)]
